@@ -143,10 +143,12 @@ def _capacity_errors(v, inv):
     inv = full_inventory(inv)
     total, res, ratio = inv['total'], inv['reserved'], inv['allocation_ratio']
     strict = v < (1, 26)
-    definite = res > total or (strict and res >= total)
+    documented = res > total or (strict and res >= total)
     cap = int((total - res) * ratio)
-    quirk = (cap < 0) or (strict and cap <= 0)
-    return definite, (quirk and not definite)
+    integer_rule = (cap < 0) or (strict and cap <= 0)
+    # e.g. reserved = total + 1 with ratio 0.5 or 0.0: int(-0.5) == 0, so
+    # the integer rule lets through what the documented rule refuses
+    return (documented and integer_rule), (documented != integer_rule)
 
 
 def _usage(st, exclude=()):
